@@ -67,7 +67,10 @@ def asNatPair (j : Json) : Except String (Nat × Nat) :=
 def asRxn (j : Json) : Except String Rxn := do
   let reac ← (← getArr j "reac").mapM asNatPair
   let prod ← (← getArr j "prod").mapM asNatPair
-  pure ⟨reac, prod⟩
+  let opt := fun (k : String) => match j.getObjVal? k with
+    | .ok (.arr a) => a.toList.mapM asNatPair
+    | _ => pure []
+  pure ⟨reac, prod, ← opt "inact_reac", ← opt "inact_prod"⟩
 
 def getRxns (j : Json) : Except String (List Rxn) := do (← getArr j "rxns").mapM asRxn
 
@@ -115,6 +118,8 @@ def h : Handler := fun op j =>
       let t ← getTable j
       pure ("[" ++ ",".intercalate ((argsDims t (← getInt j "order")).map showDims) ++ "]")
   | "reaction_check" => do out showOk (reactionCheck (← getPy j "param") (← getInt j "order"))
+  | "reaction_check_sized" => do
+      out showOk (reactionCheckSized (← getNat j "size") (← getPy j "param") (← getInt j "order"))
   | "reaction_ctor" => do
       out showOk (reactionCtor (← getPy j "param") (← getInt j "order") (← getBool j "checks_given") (← getBool j "dont_check_given")
         (← getBool j "unit_selected"))
